@@ -14,6 +14,7 @@ import (
 	"os"
 	"reflect"
 	"strings"
+	"syscall"
 	"time"
 
 	"go.uber.org/multierr"
@@ -255,10 +256,13 @@ func (s *scriptedSyncer) Sync() error { s.syncs++; return s.serr }
 func partRelays(run *ev.Run) (evals int) {
 	e1 := errors.New("E-write")
 	e2 := errors.New("E-sync")
+	// errors a real descriptor gives: the wrappers hand on whatever they get (a terminal answers EINVAL / ENOTTY to fsync)
+	e3 := error(syscall.EINVAL)
+	e4 := error(&os.PathError{Op: "sync", Path: "/dev/stderr", Err: syscall.ENOTTY})
 	for _, p := range []string{"", "a", "hello\n", strings.Repeat("z", 5000)} {
 		for _, n := range []int{-1, -2, 0} {
-			for _, werr := range []error{nil, e1} {
-				for _, serr := range []error{nil, e2} {
+			for _, werr := range []error{nil, e1, e3} {
+				for _, serr := range []error{nil, e2, e3, e4} {
 					want := func(s *scripted) int {
 						switch n {
 						case -1:
@@ -303,6 +307,12 @@ func partRelays(run *ev.Run) (evals int) {
 					// AddSync over a plain writer: no-op Sync added
 					s1 := &scripted{n: n, err: werr}
 					check("AddSync(writer)", zapcore.AddSync(s1), s1, 0, nil)
+					// AddSync over a writer that has Flush but no Sync: the added Sync is a no-op all the same
+					sf := &flushWriter{scripted: scripted{n: n, err: werr}}
+					check("AddSync(writer with Flush)", zapcore.AddSync(sf), &sf.scripted, 0, nil)
+					if sf.flushes != 0 {
+						run.Report("relay:AddSync(writer with Flush):flush-called", fmt.Sprintf("the Sync added by AddSync called the writer's Flush %d times: %s", sf.flushes, desc), desc)
+					}
 					// AddSync over a value that has Sync: kept
 					s2 := &scriptedSyncer{scripted{n: n, err: werr, serr: serr}}
 					check("AddSync(writesyncer)", zapcore.AddSync(s2), &s2.scripted, 1, serr)
@@ -805,3 +815,11 @@ func sameSyncer(a, b zapcore.WriteSyncer) bool {
 	}
 	return a == b
 }
+
+// flushWriter is an io.Writer with a Flush method and no Sync (a bufio- or gzip-like writer).
+type flushWriter struct {
+	scripted
+	flushes int
+}
+
+func (f *flushWriter) Flush() error { f.flushes++; return errors.New("flush error") }
